@@ -515,6 +515,11 @@ fn match_with_ruledef_map<'src>(
         matches.extend(rule_matches);
     }
 
+    // The map yields the rules grouped by prefix length:
+    // put the candidates back into declaration order, which is
+    // the order in which the plain search finds them
+    matches.sort_by_key(|m| (m.0.ruledef_ref.0, m.0.rule_ref.0));
+
     matches
 }
 
